@@ -1,22 +1,22 @@
 CONSTANTS
-  CodeKeys = FALSE
+  CodeKeys = TRUE
   HasFV = TRUE
   HasImages = TRUE
   StoreFailed = FALSE
-  PosKeyMode = "rel"
+  PosKeyMode = "abs"
   IdxKeyMode = "abs"
   ImgKeepMode = "none"
-  LookupsCap = 0
-  MaxDepth = 1
-  MaxDepthDmg = 1
+  LookupsCap = 64
+  MaxDepth = 3
+  MaxDepthDmg = 2
   MaxDepthCollide = 2
-  Families = {"collide"}
+  Families = {"fill"}
   ImgCounts = {2, 3}
   ImgFilterMode = "own"
   MaxImgFilters = 3
-  FillKeys = 150
-  FillLangs = 100
-  FillLookups = 150
+  FillKeys = 80
+  FillLangs = 1
+  FillLookups = 1
   MaxDepthScopes = 2
 SPECIFICATION Spec
 VIEW View
